@@ -90,12 +90,12 @@ theorem mar_null (o : MOpts) : ∀ (T : GoType) (v : GoVal) (j : JTree), mar o T
 /-! ### `any` -/
 
 /-- Round trip of the dynamic value held by an interface (when it does not marshal as `null`). -/
-def RTDyn (o : MOpts) (dv : GoVal) : Prop :=
+def RTDyn (o : MOpts) (uo : UOpts) (dv : GoVal) : Prop :=
   ∀ j, dynTyped dv = true → marDyn o dv = .ok j → j.isNull = false →
-    ∃ dv', unmAny j .nilIface = .ok (.ifaceOf dv') ∧ (safe o dv = true → veq dv dv') ∧ marDyn o dv' = .ok j ∧
+    ∃ dv', unmAny uo j .nilIface = .ok (.ifaceOf dv') ∧ (safe o dv = true → veq dv dv') ∧ marDyn o dv' = .ok j ∧
       dynTyped dv' = true
 
-theorem rt_any_both (o : MOpts) : ∀ v : GoVal, RT1 o (marAny o) unmAny .nilIface anyTyped v ∧ RTDyn o v := by
+theorem rt_any_both (o : MOpts) (uo : UOpts) : ∀ v : GoVal, RT1 o (marAny o) (unmAny uo) .nilIface anyTyped v ∧ RTDyn o uo v := by
   intro v
   induction v using GoVal.induct with
   | hnilIface =>
@@ -173,7 +173,7 @@ theorem rt_any_both (o : MOpts) : ∀ v : GoVal, RT1 o (marAny o) unmAny .nilIfa
     | ok js =>
       simp only [hl, Except.ok.injEq] at h
       subst h
-      obtain ⟨ws, h1, h2, h3, h4, _, _⟩ := rt_list (o := o) (mdec := unmAny) (z := .nilIface) (ty := anyTyped) vs
+      obtain ⟨ws, h1, h2, h3, h4, _, _⟩ := rt_list (o := o) (mdec := unmAny uo) (z := .nilIface) (ty := anyTyped) vs
         (fun v hv => (ih v hv).1) ht js hl
       refine ⟨.sliceOf ws, ?_, ?_, ?_, ?_⟩
       · simp [unmAny, anyPrior, unmAnyL_eq, h1]
@@ -190,7 +190,7 @@ theorem rt_any_both (o : MOpts) : ∀ v : GoVal, RT1 o (marAny o) unmAny .nilIfa
     | ok mem =>
       simp only [hl, Except.ok.injEq] at h
       subst h
-      obtain ⟨m', h1, h2, h3, h4, h5⟩ := rt_map (o := o) (mdec := unmAny) (z := .nilIface) (ty := anyTyped) ms
+      obtain ⟨m', h1, h2, h3, h4, h5⟩ := rt_map (o := o) (uo := uo) (mdec := unmAny uo) (z := .nilIface) (ty := anyTyped) ms
         (fun k v hv => (ih k v hv).1) ht.1 (fun k v hv => (ht.2 k v hv).2) mem hl
       refine ⟨.mapOf m', ?_, ?_, ?_, ?_⟩
       · simp [unmAny, unmAnyM_eq, h1]
@@ -204,6 +204,6 @@ theorem rt_any_both (o : MOpts) : ∀ v : GoVal, RT1 o (marAny o) unmAny .nilIfa
   | hptr v _ => exact ⟨by intro j ht; simp [anyTyped] at ht, by intro j ht; simp [dynTyped] at ht⟩
   | hstruct fvs _ => exact ⟨by intro j ht; simp [anyTyped] at ht, by intro j ht; simp [dynTyped] at ht⟩
 
-theorem rt_any (o : MOpts) (v : GoVal) : RT1 o (marAny o) unmAny .nilIface anyTyped v := (rt_any_both o v).1
+theorem rt_any (o : MOpts) (uo : UOpts) (v : GoVal) : RT1 o (marAny o) (unmAny uo) .nilIface anyTyped v := (rt_any_both o uo v).1
 
 end JsonV.Lemmas.RoundTrip
